@@ -479,7 +479,7 @@ func (c *C14Case) Run() string {
 	return ""
 }
 
-var c14Layouts = []string{"contig", "cmraw", "cmconv", "lazyT", "sliced", "stepsliced", "physT", "clonedview"}
+var c14Layouts = []string{"contig", "cmraw", "cmconv", "lazyT", "sliced", "stepsliced", "physT", "clonedview", "Tsliced", "slicedT", "picked", "leadsliced"}
 
 func genC14(rt *rapid.T, format string, d DT, lk string, masked bool) *C14Case {
 	var shape []int
